@@ -89,6 +89,7 @@ var c15Callbacks = map[string]string{
 	"addidx":   "function ($e, $i) { return $e + $i; }",
 	"timeslen": "function ($e, $i, $a) { return $e * $a->length; }",
 	"fold":     "function ($acc, $cur) { return $acc * 10 + $cur; }",
+	"foldidx":  "function ($acc, $cur, $i, $a) { return $acc * 100 + $cur * 10 + $i + $a->length; }",
 	"pair":     "function ($e) { return [$e, $e * 2]; }",
 	"collect":  "function ($e, $i) { echo ($e * 10 + $i), \",\"; }",
 }
